@@ -173,8 +173,12 @@ def _soup_chunk(args):
 REDOS = ["^(?:(?=a)a|(?=a)a)*b", "(?:(?!b)a|(?!b)a)*b", "(a*)*b", "(a+)+b", "(a|a)*b", "(a|aa)+b", "(.*)*x", "(\\w+\\s?)+$", "(a*)\\1*b", "(?=(a+)+b)a", "(?<=(?:a|a)*c)x", "((a?){20}){20}b", "(x+x+)+y", "(?:(?:a*){2})*b", "(?:a*)*?b", "([ab]*)*c"]
 
 
+FORMS_REDOS = ["new RegExp(P).test(S)", "new RegExp(P, 'y').test(S)", "S.split(new RegExp(P))", "S.match(new RegExp(P, 'g'))", "S.replace(new RegExp(P, 'y'), '')", "S.search(new RegExp(P))",
+               "new RegExp(P, 'gy').exec(S)", "S.replace(new RegExp(P, 'g'), function () { return ''; })", "S.match(new RegExp(P, 'y'))", "S.replaceAll(new RegExp(P, 'g'), '')", "S.split(new RegExp(P, 'y'), 2)"]
+
+
 def _redos_case(args):
-    pat, n, tl = args
+    pat, n, tl, fi = args
     import signal, time
     from microjs import Context
 
@@ -182,7 +186,9 @@ def _redos_case(args):
         raise TimeoutError("hang")
     signal.signal(signal.SIGPROF, boom)      # CPU-time watchdog: the verdict must not depend on the load of the machine
     subj = "a" * n
-    src = f"var r; try {{ r = ['ok', new RegExp({json.dumps(pat)}).test({json.dumps(subj)})] }} catch (e) {{ r = ['err', e.name] }} r"
+    form = FORMS_REDOS[fi]
+    use = form.replace("P", json.dumps(pat)).replace("S", json.dumps(subj + "c"))
+    src = f"var r; try {{ r = ['ok', typeof ({use})] }} catch (e) {{ r = ['err', e.name] }} r"
     t0 = time.time()
     signal.setitimer(signal.ITIMER_PROF, 30)
     try:
@@ -208,7 +214,9 @@ def c10_bounded(tier="quick", seed=0):
     n = 60 if tier == "quick" else 1500
     with mp.get_context("fork").Pool(16) as pool:
         rs = pool.map(_soup_chunk, [(seed * 1000 + i, n) for i in range(16)])
-        cases = [(p, k, tl) for p in REDOS for k in ((30, 1000) if tier == "quick" else (30, 1000, 10000)) for tl in (1.0, None) if not (tl is None and k > 30)]
+        cases = [(p, k, tl, 0) for p in REDOS for k in ((30, 1000) if tier == "quick" else (30, 1000, 10000)) for tl in (1.0, None) if not (tl is None and k > 30)]
+        # every consumer and the sticky / global flags, on the short subject under a time limit
+        cases += [(p, 30, 1.0, fi) for p in REDOS for fi in range(1, len(FORMS_REDOS))]
         rr = pool.map(_redos_case, cases)
     out = []
     bad = [b for _, bs in rs for b in bs]
@@ -225,8 +233,13 @@ def c10_bounded(tier="quick", seed=0):
 
 # ---- bounded: what a construction may cost before it is refused ----------------------------------------------------------
 def _construct_case(pat):
-    import tracemalloc, time
+    import tracemalloc, time, resource
     from microjs.regex import RegExp
+    # (an allocation far beyond the bound fails at once instead of exhausting the machine)
+    try:
+        resource.setrlimit(resource.RLIMIT_AS, (3 * 2 ** 30, resource.getrlimit(resource.RLIMIT_AS)[1]))
+    except (ValueError, OSError):
+        pass
     tracemalloc.start()
     t0 = time.process_time()
     try:
